@@ -596,8 +596,8 @@ theorem binaryTrust_semiring_laws :
 whenever both of its sides are computed without panic -/
 structure GuardedSemiringLaws {S : Type} (P : S → Prop) (add mul : S → S → Option S) (zero one : S) :
     Prop where
-  closed_add : ∀ a b s, add a b = some s → P s
-  closed_mul : ∀ a b s, mul a b = some s → P s
+  closed_add : ∀ a b s, P a → P b → add a b = some s → P s
+  closed_mul : ∀ a b s, P a → P b → mul a b = some s → P s
   add_assoc : ∀ a b c u v, (add a b).bind (add · c) = some u → (add b c).bind (add a ·) = some v → u = v
   add_comm : ∀ a b, add a b = add b a
   add_zero : ∀ a, P a → add a zero = some a ∧ add zero a = some a
@@ -629,8 +629,8 @@ theorem multiplicity_guarded_semiring_laws :
     GuardedSemiringLaws (· ≤ U32_MAX) Multiplicity.add Multiplicity.mul Multiplicity.zero
       Multiplicity.one := by
   constructor
-  · intro a b s h; simp only [Multiplicity.add, aux_checkedAdd_some] at h; omega
-  · intro a b s h; simp only [Multiplicity.mul, aux_checkedMul_some] at h; omega
+  · intro a b s _ _ h; simp only [Multiplicity.add, aux_checkedAdd_some] at h; omega
+  · intro a b s _ _ h; simp only [Multiplicity.mul, aux_checkedMul_some] at h; omega
   · intro a b c u v hu hv
     simp only [Multiplicity.add, aux_checkedAdd_bind, aux_checkedAdd_some] at hu hv; omega
   · intro a b; simp [Multiplicity.add, checkedAdd, Nat.add_comm]
@@ -652,6 +652,13 @@ theorem multiplicity_guarded_semiring_laws :
     obtain ⟨_, _, rfl⟩ := hu
     obtain ⟨_, _, _, rfl⟩ := hv
     exact Nat.add_mul b c a
+
+/-- `Multiplicity`: a result that is returned fits in `u32`, whatever the operands -/
+theorem multiplicity_results_in_range (a b s : Nat) :
+    (Multiplicity.add a b = some s → s ≤ U32_MAX) ∧ (Multiplicity.mul a b = some s → s ≤ U32_MAX) := by
+  constructor
+  · intro h; simp only [Multiplicity.add, aux_checkedAdd_some] at h; omega
+  · intro h; simp only [Multiplicity.mul, aux_checkedMul_some] at h; omega
 
 /-- for `Multiplicity::add` the two bracketings even panic on exactly the same inputs -/
 theorem multiplicity_add_assoc_exact (a b c : Nat) :
@@ -679,31 +686,97 @@ theorem cost_semiring_laws_unbounded :
   · intro a b c; rcases a with _ | a <;> rcases b with _ | b <;> rcases c with _ | c <;>
       simp [Cost.add, Cost.mulNat, Nat.add_min_add_right]
 
-/-- with overflow checks (debug build) `Cost::mul` either panics or is the unbounded operation -/
-theorem cost_mulChecked_eq (a b r : Cost.V) (h : Cost.mulChecked a b = some r) : r = Cost.mulNat a b := by
-  rcases a with _ | a <;> rcases b with _ | b <;> simp_all [Cost.mulChecked, Cost.mulNat]
+/-- `Cost::mul` (`checked_add(..).unwrap()`) either panics or is the unbounded operation -/
+theorem cost_mul_eq (a b r : Cost.V) (h : Cost.mul a b = some r) : r = Cost.mulNat a b := by
+  rcases a with _ | a <;> rcases b with _ | b <;> simp_all [Cost.mul, Cost.mulNat]
   unfold checkedAdd at h; split at h <;> simp_all
 
-/-- without overflow checks (release build) `Cost::mul` is the unbounded operation as long as the sum
-fits in `u32` (the guard "no overflow") -/
-theorem cost_mulWrapping_eq_of_no_overflow (a b : Cost.V)
-    (h : ∀ x y, a = some x → b = some y → x + y ≤ U32_MAX) : Cost.mulWrapping a b = Cost.mulNat a b := by
-  rcases a with _ | a <;> rcases b with _ | b <;> simp [Cost.mulWrapping, Cost.mulNat, wrappingAdd]
-  have := h a b rfl rfl
-  unfold U32_MAX at this
-  omega
+/-- `Cost::mul` panics exactly when both operands are finite and their sum does not fit in `u32` -/
+theorem cost_mul_panics_iff (a b : Cost.V) :
+    Cost.mul a b = none ↔ ∃ x y, a = some x ∧ b = some y ∧ U32_MAX < x + y := by
+  rcases a with _ | a <;> rcases b with _ | b <;> simp [Cost.mul]
+  by_cases h : a + b ≤ U32_MAX
+  · simp [checkedAdd, h]
+  · simp [checkedAdd, h]; omega
 
-/-- observation: without the guard the release build's `Cost` is not distributive (`+` wraps):
-`1 ⊗ (MAX ⊕ 0) = 1` but `(1 ⊗ MAX) ⊕ (1 ⊗ 0) = min 0 1 = 0` -/
-theorem cost_distrib_wrap_witness :
-    Cost.mulWrapping (some 1) (Cost.add (some 4294967295) (some 0))
-      ≠ Cost.add (Cost.mulWrapping (some 1) (some 4294967295)) (Cost.mulWrapping (some 1) (some 0)) := by
+/-- the values `U32WithInfinity` can hold -/
+def Cost.InRange (v : Cost.V) : Prop := ∀ n, v = some n → n ≤ U32_MAX
+
+theorem cost_add_inRange (a b : Cost.V) (ha : Cost.InRange a) (hb : Cost.InRange b) :
+    Cost.InRange (Cost.add a b) := by
+  rcases a with _ | a <;> rcases b with _ | b <;> simp_all [Cost.add, Cost.InRange]
+  try omega
+
+theorem cost_mul_inRange (a b r : Cost.V) (h : Cost.mul a b = some r) : Cost.InRange r := by
+  rcases a with _ | a <;> rcases b with _ | b <;> simp_all [Cost.mul, Cost.InRange]
+  all_goals try (subst h; simp)
+  unfold checkedAdd at h; split at h <;> simp_all
+  intro n hn; subst h; simp at hn; omega
+
+theorem aux_cost_mul_some (a b : Cost.V) (r : Cost.V) :
+    Cost.mul a b = some r ↔ r = Cost.mulNat a b ∧ Cost.mul a b ≠ none := by
+  constructor
+  · intro h; exact ⟨cost_mul_eq a b r h, by simp [h]⟩
+  · rintro ⟨h1, h2⟩
+    cases h : Cost.mul a b with
+    | none => exact absurd h h2
+    | some r' => rw [h1, cost_mul_eq a b r' h]
+
+theorem aux_cost_mul_bind (a b : Cost.V) (k : Cost.V → Option Cost.V) (u : Cost.V) :
+    (Cost.mul a b).bind k = some u → k (Cost.mulNat a b) = some u := by
+  cases h : Cost.mul a b with
+  | none => simp
+  | some r => rw [cost_mul_eq a b r h]; simp
+
+/-- the shipped `Cost` (after the F91 fix): (u32 ∪ {∞}, min, checked +, ∞, 0) satisfies every semiring law
+whenever neither side of the law panics -/
+theorem cost_guarded_semiring_laws :
+    GuardedSemiringLaws Cost.InRange (fun a b => some (Cost.add a b)) Cost.mul Cost.zero Cost.one := by
+  have L := cost_semiring_laws_unbounded
+  constructor
+  · intro a b s ha hb h; simp at h; subst h; exact cost_add_inRange a b ha hb
+  · intro a b s _ _ h; exact cost_mul_inRange a b s h
+  · intro a b c u v hu hv; simp at hu hv; rw [← hu, ← hv]; exact L.add_assoc a b c
+  · intro a b; simp [L.add_comm a b]
+  · intro a _; simp [(L.add_zero a).1, (L.add_zero a).2]
+  · intro a b c u v hu hv
+    have hu := aux_cost_mul_bind _ _ _ _ hu
+    have hv := aux_cost_mul_bind _ _ _ _ hv
+    rw [cost_mul_eq _ _ _ hu, cost_mul_eq _ _ _ hv]; exact L.mul_assoc a b c
+  · intro a ha; rcases a with _ | a <;> simp [Cost.mul, Cost.one, checkedAdd]
+    have := ha a rfl
+    simp [this]
+  · intro a _; rcases a with _ | a <;> simp [Cost.mul, Cost.zero]
+  · intro a b c u v hu hv
+    simp at hu
+    have hv := aux_cost_mul_bind _ _ _ _ hv
+    have hv := aux_cost_mul_bind _ _ _ _ hv
+    simp at hv
+    rw [cost_mul_eq _ _ _ hu, ← hv]; exact L.left_distrib a b c
+  · intro a b c u v hu hv
+    simp at hu
+    have hv := aux_cost_mul_bind _ _ _ _ hv
+    have hv := aux_cost_mul_bind _ _ _ _ hv
+    simp at hv
+    rw [cost_mul_eq _ _ _ hu, ← hv]; exact L.right_distrib a b c
+
+/-- F91 (fixed in /repo): BEFORE the fix `Cost::mul` was a bare `a + b`, which wraps in the release build the
+checks run; that `Cost` is not distributive: `1 ⊗ (MAX ⊕ 0) = 1` but `(1 ⊗ MAX) ⊕ (1 ⊗ 0) = min 0 1 = 0` -/
+theorem cost_distrib_refuted_before_fix :
+    Cost.mulWrappingBeforeFix (some 1) (Cost.add (some 4294967295) (some 0))
+      ≠ Cost.add (Cost.mulWrappingBeforeFix (some 1) (some 4294967295))
+          (Cost.mulWrappingBeforeFix (some 1) (some 0)) := by
   decide
 
 /-- the same witness stated on 32-bit vectors -/
-theorem cost_distrib_wrap_witness_bitvec :
+theorem cost_distrib_refuted_before_fix_bitvec :
     (1#32 + (if (4294967295#32) ≤ 0#32 then 4294967295#32 else 0#32))
       ≠ (if (1#32 + 4294967295#32) ≤ (1#32 + 0#32) then 1#32 + 4294967295#32 else 1#32 + 0#32) := by
+  decide
+
+/-- … and the old release `Cost::mul` gave a wrong value, not just a different bracketing -/
+theorem cost_mul_value_refuted_before_fix :
+    Cost.mulWrappingBeforeFix (some 4294967295) (some 1) ≠ Cost.mulNat (some 4294967295) (some 1) := by
   decide
 
 /-! ## Exactness of the `Err` answers: a checker that does not return `Ok` returns its own message
@@ -922,8 +995,19 @@ example : semiring [none, some 0, some 5, some 4294967295] Cost.add Cost.mulNat 
   semiring_ok_of_laws cost_semiring_laws_unbounded _
 example : Multiplicity.add 4294967295 1 = none := by rfl
 example : Multiplicity.mul 65536 65535 = some 4294901760 := by rfl
-example : Cost.mulChecked (some 1) (some 4294967295) = none := by rfl
-example : Cost.mulWrapping (some 1) (some 4294967295) = some 0 := by rfl
+example : Cost.mul (some 1) (some 4294967295) = none := by rfl
+example : Cost.mul (some 1) (some 4294967294) = some (some 4294967295) := by rfl
+example : Cost.mul none (some 4294967295) = some none := by rfl
+example : Cost.mulWrappingBeforeFix (some 1) (some 4294967295) = some 0 := by rfl
+/-- a law instance of `cost_guarded_semiring_laws` whose two sides are both computed (no panic) -/
+example : (some (Cost.add (some 5) (some 7))).bind (Cost.mul (some 3) ·) = some (some 8)
+    ∧ ((Cost.mul (some 3) (some 5)).bind fun x => (Cost.mul (some 3) (some 7)).bind fun y => some (Cost.add x y))
+      = some (some 8) := by
+  constructor <;> rfl
+example : Cost.InRange (some 4294967295) ∧ ¬ Cost.InRange (some 4294967296) := by
+  constructor
+  · intro n h; cases h; decide
+  · intro h; exact absurd (h _ rfl) (by decide)
 
 end laws
 
